@@ -8,6 +8,8 @@ sys.path.insert(0, VERIF)
 from sa import canon
 REPO = os.environ.get('VERIF_REPO', '/repo')
 out = {}
+outc = {}
+funcs = {}
 for d, _dirs, files in os.walk(os.path.join(REPO, 'cassandra')):
     for fn in sorted(files):
         if not fn.endswith('.py'):
@@ -15,6 +17,8 @@ for d, _dirs, files in os.walk(os.path.join(REPO, 'cassandra')):
         rel = os.path.relpath(os.path.join(d, fn), REPO)
         tree = canon._Shape().visit(ast.parse(open(os.path.join(d, fn)).read()))
         tab = {}
+        tabc = {}
+        fl = []
 
         def visit(node, prefix):
             for ch in ast.iter_child_nodes(node):
@@ -25,10 +29,20 @@ for d, _dirs, files in os.walk(os.path.join(REPO, 'cassandra')):
                         loc = canon.ordered_locals(ch)
                         if loc:
                             tab[q] = loc
+                        fl.append(q)
+                        cm = canon.compares_of(ch)
+                        if cm:
+                            tabc[q] = cm
                 elif isinstance(ch, (ast.If, ast.Try, ast.With, ast.For, ast.While, ast.ExceptHandler)):
                     visit(ch, prefix)
         visit(tree, '')
         if tab:
             out[rel] = tab
+        if tabc:
+            outc[rel] = tabc
+        funcs[rel] = sorted(set(fl))
+n_ = sum(len(v) for v in out.values())
+out['__functions__'] = funcs
 json.dump(out, open(os.path.join(VERIF, 'spec', 'locals.json'), 'w'), indent=0, sort_keys=True)
-print(sum(len(v) for v in out.values()), 'functions with locals in', len(out), 'modules')
+json.dump(outc, open(os.path.join(VERIF, 'spec', 'compares.json'), 'w'), indent=0, sort_keys=True)
+print(n_, 'functions with locals in', len(out) - 1, 'modules;', sum(len(v) for v in outc.values()), 'with comparisons')
